@@ -1,4 +1,5 @@
 mod core;
+mod gast;
 mod lit;
 mod mv;
 mod nums;
